@@ -34,6 +34,8 @@ def gen_suffix(rng):
     c = comp()
     if rng.random() < 0.4:
         c["el"] = rng.choice(["-x", "x", "_y"])
+    elif rng.random() < 0.12:
+        c["el"] = rng.choice(["*", "|x"])          # cant_append: selector.append must refuse these
     for _ in range(rng.choice([0, 1, 1, 2])):
         k = rng.choice(["cl", "cl", "ps", "at", "id"])
         if k == "cl":
@@ -74,6 +76,8 @@ CORPUS = [
     {"kind": 0, "a": [sel(comp(el="a")), sel(comp(el="b"))], "b": [sel(comp(el="c")), sel(comp(el="d"))], "c": []},
     {"kind": 1, "a": [sel(comp(el="a"))], "b": [sel(comp(el="-x"))], "c": []},
     {"kind": 1, "a": [sel(comp(el="*"))], "b": [sel(comp(el="b"))], "c": []},
+    {"kind": 1, "a": [sel(comp(el="a"))], "b": [sel(comp(el="*", cl=["c"]))], "c": []},
+    {"kind": 1, "a": [sel(comp(el="a"))], "b": [sel(comp(el="|x"))], "c": []},
     {"kind": 1, "a": [sel(comp(el="a", ps=[["before", True, None]]))], "b": [sel(comp(ps=[["hover", False, None]]))], "c": []},
     {"kind": 1, "a": [sel(comp(ps=[["host", False, None]]))], "b": [sel(comp(cl=["foo"]))], "c": []},
     {"kind": 2, "a": [sel(comp(el="a", cl=["b"]))], "b": [sel(comp(cl=["c"]))], "c": []},
@@ -101,6 +105,13 @@ def gen_cases(ctx, tier):
         b = c23.spec_list(rng, a) if rng.random() < 0.4 else gl(rng, 2)
         if rng.random() < 0.4:
             b = [sel(gen_comp(rng, 0))]
+        if rng.random() < 0.5:            # combinator-free operands: the only ones the unify clause judges
+            a = [sel(gen_comp(rng, rng.choice([0, 1]), other=True)) for _ in range(rng.randint(1, 2))]
+            b = [sel(gen_comp(rng, rng.choice([0, 1]), other=True)) for _ in range(rng.randint(1, 2))]
+        if ":current(" in t_sels(a) + t_sels(b):
+            # :current() compares its arguments for equality and the printer drops an explicit `*` (`*#i` -> `#i`),
+            # so the text of the result does not read back as the same argument
+            continue
         cases.append({"kind": 2, "a": a, "b": b, "c": []})
     for _ in range(200 * n):
         s = gl(rng, 3)
